@@ -130,7 +130,7 @@ def _validate(ctx, results, per_batch=3000):
     def one(b):
         return b, _retrying(ctx.validate, {'traces': b}, module='WalkAccept', heap='2g')
     out = []
-    with cf.ThreadPoolExecutor(max_workers=3) as ex:
+    with cf.ThreadPoolExecutor(max_workers=4) as ex:
         for b, verd in ex.map(one, batches):
             for t in b:
                 out.append((t, meta[t['id']], verd[t['id']]))
